@@ -15,7 +15,9 @@ RULE = ("drivers: ordered pairs of placements (bit range of a 4-bit signal x mod
         "placement x (Instance output | async / sync memory read-port data | IOBufferInstance i) x range; output x "
         "output; placements and outputs x ports (dir None / Input / Output, also the same signal twice); mixed-width "
         "arrays; every slice of a choice between values of different widths (Mux / Array.as_value) x every range of the "
-        "narrower value driven from another module or domain; zero-width targets. "
+        "narrower value driven from another module or domain; every slice / part-select window of a concatenation (starting "
+        "inside either part, crossing the boundary) x a second driver of the free / touched bits of the same signals; "
+        "zero-width targets. "
         "cycles: seeded dependency rings over <= 6 signal bits from slices, Cat, ~ & | ^, Mux, If conditions and one "
         "word-level operator (+ - * << >> < ==), half of them spread over a 3-level module hierarchy, each in a cyclic "
         "variant and with one edge cut (or moved to a sync domain); per CELL KIND (every unary/binary Operator incl. "
@@ -432,6 +434,56 @@ def gen_drv(tier, rng):
             cases.append({"k": "drv", "tag": "sw-slice", "sigw": {"0": 4, "1": 4}, "ports": [],
                           "top": {"st": [["comb", ["sw", [["sig", 0], ["sig", 1]], lo, hi], 0]],
                                   "sub": [{"st": [[d2, ["sl", ["sig", 0], 0, 2], 0]], "sub": []}]}})
+    # a sliced / part-selected CONCATENATION whose window starts inside a part (every start offset within the first and
+    # the second part, windows crossing the boundary), plus a second driver of the remaining bits of the same signals
+    # from another module or domain: bit-disjoint -> accepted, overlapping -> rejected
+    ncat = 0
+    for variant in ("slice-of-wide", "whole"):
+        # Cat(s0[0:4], s1) with s0 8 bits wide (its upper half belongs to someone else), or Cat(s2, s1) with whole signals
+        sigw_ = {"0": 8, "1": 4, "2": 4}
+        first_sid, first = (0, ["sl", ["sig", 0], 0, 4]) if variant == "slice-of-wide" else (2, ["sig", 2])
+        cat = ["cat", [first, ["sig", 1]]]
+        windows = [("sl", lo, hi) for lo in range(8) for hi in range(lo + 1, 9)]
+        windows += [("part", 1, w_, 1) for w_ in (2, 3, 5)] + [("part", 2, 2, 1), ("part", 1, 3, 3), ("part", 2, 2, 2)]
+        for win in windows:
+            if win[0] == "sl":
+                tgt_ = ["sl", cat, win[1], win[2]]
+                touched = set(range(win[1], win[2]))
+            else:
+                _p, offw, w_, st_ = win
+                tgt_ = ["part", cat, offw, w_, st_]
+                touched = {o * st_ + k_ for o in range(min((8 + st_ - 1) // st_, 2 ** offw)) for k_ in range(w_)
+                           if o * st_ + k_ < 8}
+            t_first = {p_ for p_ in touched if p_ < 4}            # bits of the first part
+            t_second = {p_ - 4 for p_ in touched if p_ >= 4}      # bits of s1
+            seconds = []
+            if variant == "slice-of-wide":
+                seconds.append((0, 4, 8))                           # the upper half of s0: never touched
+            for sid_, used, width in ((first_sid, t_first, 4), (1, t_second, 4)):
+                free = [b_ for b_ in range(width) if b_ not in used]
+                if free:
+                    seconds.append((sid_, free[0], free[0] + 1))   # a free bit next to the window: near miss
+                    lo_ = free[0]
+                    hi_ = lo_ + 1
+                    while hi_ < width and hi_ not in used:
+                        hi_ += 1
+                    if hi_ - lo_ > 1:
+                        seconds.append((sid_, lo_, hi_))           # the whole free run
+                    if hi_ < width:
+                        seconds.append((sid_, lo_, hi_ + 1))       # one bit too far: overlap
+                if used:
+                    u = min(used)
+                    seconds.append((sid_, u, u + 1))               # overlap on the first touched bit
+            for sid_, l2, h2 in seconds:
+                ncat += 1
+                if not thorough and ncat % 2 and win[0] == "sl" and not (0 < win[1] < 8 and win[1] != 4):
+                    continue
+                where = (ncat // 2) % 3
+                second = [["comb" if where == 0 else "a", ["sl", ["sig", sid_], l2, h2], 0]]
+                first_st = ["comb", tgt_, int(ncat % 7 == 0)]
+                top = {"st": [first_st] + (second if where == 1 else []),
+                       "sub": [] if where == 1 else [{"st": second, "sub": []}]}
+                cases.append({"k": "drv", "tag": "cat-window", "sigw": dict(sigw_), "ports": [], "top": top})
     # a slice with a non-zero start of a choice between values of DIFFERENT widths (Mux(sel, a, b)[lo:hi] and
     # Array([a, b])[idx].as_value()[lo:hi]) plus a second driver of the narrower value's signal in another module or
     # domain: accepted when bit-disjoint, DriverConflict when overlapping (C06-choice-target-overhang-indexerror)
